@@ -79,6 +79,25 @@ def seed_sampler(sampler, seed):
     sampler.sample_points = sample_points
 
 
+def log_inner(inner, static):
+    """remembers (on the static sampler object) every point set its own inner sampler produced"""
+    orig = inner.sample_points
+    static._c04_inner_log = []
+
+    def sample_points(*a, **kw):
+        pts = orig(*a, **kw)
+        static._c04_inner_log.append(pts.as_tensor.detach().clone())
+        return pts
+    inner.sample_points = sample_points
+
+
+def from_own_inner(static, t):
+    log = getattr(static, "_c04_inner_log", None)
+    if log is None:
+        return True
+    return any(x.shape == t.shape and torch.equal(x, t) for x in log)
+
+
 def probe_loader(loader, trace):
     """instance-level probe on a DataLoader: class swap so that __iter__ records every delivered batch"""
     base = loader.__class__
@@ -149,6 +168,7 @@ def build_sampler(spec, vars_, world, seed=None):
         if spec.get("seeded") is not None:
             seed_sampler(inner, int(spec["seeded"]))
         s = inner.make_static() if spec.get("interval") is None else inner.make_static(int(spec["interval"]))
+        log_inner(inner, s)
     else:
         raise ValueError(op)
     if op != "static" and spec.get("seeded") is not None:
